@@ -58,6 +58,44 @@ SHAPES = {
     "default_arg_recursion": (lambda d: "local f(n, m=if n == 0 then 0 else 1 + f(n - 1)) = m; f(%d)" % d, lambda d: str(d), True),
 }
 
+# recursion that passes through the callback of a higher-order builtin, for the first and for the last element of the
+# array the builtin walks: every level must be charged whatever element the callback is working on
+def _add_callback_shapes():
+    hof = {
+        "map": "std.map(function(x) if x == K then f(n - 1) else 0, [1, 2])[K - 1]",
+        "mapWithIndex": "std.mapWithIndex(function(i, x) if x == K then f(n - 1) else 0, [1, 2])[K - 1]",
+        "makeArray": "std.makeArray(2, function(i) if i + 1 == K then f(n - 1) else 0)[K - 1]",
+        "mapWithKey": "std.mapWithKey(function(k, x) if x == K then f(n - 1) else 0, {a: 1, b: 2})[if K == 1 then 'a' else 'b']",
+        "filter": "std.length(std.filter(function(x) x == K && f(n - 1) == 0, [1, 2])) - 1",
+        "filterMap": "std.filterMap(function(x) x == K, function(x) f(n - 1), [1, 2])[0]",
+        "flatMap": "std.flatMap(function(x) if x == K then [f(n - 1)] else [], [1, 2])[0]",
+        "foldl": "std.foldl(function(acc, x) if x == K then f(n - 1) else acc, [1, 2], 0) * 0",
+        "foldr": "std.foldr(function(x, acc) if x == K then f(n - 1) else acc, [1, 2], 0) * 0",
+        "sort_key": "std.sort([1, 2], function(x) if x == K then f(n - 1) else x)[0] * 0",
+        "set_key": "std.length(std.set([1, 2], function(x) if x == K then f(n - 1) else x)) * 0",
+        "uniq_key": "std.length(std.uniq([1, 2], function(x) if x == K then f(n - 1) else x)) * 0",
+        "minArray_key": "std.minArray([1, 2], function(x) if x == K then f(n - 1) else x) * 0",
+        "maxArray_key": "std.maxArray([1, 2], function(x) if x == K then f(n - 1) else x) * 0",
+        "setUnion_key": "std.length(std.setUnion([1], [2], function(x) if x == K then f(n - 1) else x)) * 0",
+        "all": "if std.all([x != K || f(n - 1) == 0 for x in [1, 2]]) then 0 else 1",
+        "comprehension": "[if x == K then f(n - 1) else 0 for x in [1, 2]][K - 1]",
+        "objcomp": "{['k' + x]: if x == K then f(n - 1) else 0 for x in [1, 2]}['k' + K]",
+        "format": "std.parseInt('%d' % [f(n - 1) + K - K])",
+        "join": "std.length(std.join('', [if x == K then std.toString(f(n - 1))[0:0] else '' for x in [1, 2]]))",
+        "trace_rest": "std.trace('t', f(n - 1)) + K - K",
+        "native_equals": "if std.equals([0, if K == 1 then f(n - 1) else 0], [0, if K == 2 then f(n - 1) else 0]) then 0 else 0",
+    }
+    for name, body in hof.items():
+        for K in (1, 2):
+            if name == "trace_rest" and K == 2:
+                continue
+            src = "local f(n) = if n == 0 then 0 else " + re.sub(r"\bK\b", str(K), body) + "; f(@D@)"
+            SHAPES["callback:%s:%s" % (name, "first" if K == 1 else "last")] = ((lambda src: lambda d: src.replace("@D@", str(d)))(src), lambda d: "0", True)
+
+
+_add_callback_shapes()
+
+
 # every deep consumer on every kind of tower (array / object / alternating)
 def _add_consumer_towers():
     consumers = {"manifestJsonEx": "std.length(std.manifestJsonEx(%s, '')) > 0", "manifestJsonMinified": "std.length(std.manifestJsonMinified(%s)) > 0",
@@ -644,7 +682,7 @@ def run(tier, seed):
         depths += rng.sample(range(41, 3000), 30)
     # the inheritance-layer and lazy-container chains cost O(d) per field lookup: fewer and smaller depths
     chain_depths = [2, 20, 41, 250, 501] if quick else [0, 1, 2, 3, 5, 8, 13, 20, 21, 40, 41, 100, 250, 499, 500, 501, 1000, 2000]
-    jobs = [(sh, d) for sh in SHAPES for d in (chain_depths if sh.startswith(("layers:", "lazy:", "tower:")) else depths)]
+    jobs = [(sh, d) for sh in SHAPES for d in (chain_depths if sh.startswith(("layers:", "lazy:", "tower:", "callback:")) else depths)]
     rng.shuffle(jobs)
     for a in common.pmap(shapes_shard, [(seed + i, jobs[i::32]) for i in range(32)]):
         total.merge(a)
@@ -676,7 +714,7 @@ def run(tier, seed):
             "tailstrict - only a tailstrict call in a genuine tail position may go uncharged; function, mutual, object method, self/super chains, array/object towers "
             "through manifestation, ==, <, toString, manifestJsonEx/Python/YamlDoc/TomlEx, prune, mergePatch, "
             "flattenDeepArray, deepJoin, thunk chains, lazy array chains, format, sort keys, comprehensions, asserts, "
-            "default args; 14 deep consumers (every manifester, toString, string concatenation, %s, ==, assertEqual, top-level output) on "
+            "default args; recursion through the callback of 22 higher-order builtins / constructs for the first and the last element; 14 deep consumers (every manifester, toString, string concatenation, %s, ==, assertEqual, top-level output) on "
             "array, object and alternating towers; thunk chains through inheritance layers - 13 ways a layer can read its predecessor (+: in every visibility / "
             "computed / array / string / object form, super.f, super[e], in super, self, object local, assert) x foldl / foldr / "
             "object-extension construction - and through lazily built containers (comprehensions, map, mapWithIndex, mapWithKey, "
